@@ -4,7 +4,7 @@ import os
 import warnings
 from copy import deepcopy
 
-from astropy.coordinates import Angle, SkyCoord
+from astropy.coordinates import Angle, SkyCoord, frame_transform_graph
 from astropy.units import Quantity
 from astropy.utils.exceptions import AstropyUserWarning
 
@@ -162,7 +162,7 @@ def _make_meta_str(meta):
     return ' '.join(metalist)
 
 
-def _get_region_params(region, shape_template, precision=8):
+def _get_region_params(region, shape_template, precision=8, frame=None):
     ellipse_axes = ('width', 'height', 'inner_width', 'inner_height',
                     'outer_width', 'outer_height')
     ellipse_names = ('ellipse', 'ellipseannulus')
@@ -195,6 +195,11 @@ def _get_region_params(region, shape_template, precision=8):
                 value = value_str[:-1]
 
         elif isinstance(value, SkyCoord):
+            if frame is not None:
+                # numbers are read back in the frame written on the frame
+                # line (with its default attributes, e.g., FK5 = J2000)
+                frame_cls = frame_transform_graph.lookup_name(frame)
+                value = SkyCoord(value.frame.transform_to(frame_cls()))
             val = value.to_string(precision=precision)
             # polygon region has multiple SkyCoord
             value = ' '.join(val) if not value.isscalar else val
@@ -234,9 +239,13 @@ def _serialize_region_ds9(region, precision=8):
                       'skipping', AstropyUserWarning)
         return None
 
+    sky_frame = None
+    if not isinstance(region, PixelRegion):
+        sky_frame = ds9_frame_map[frame]
     region_params = _get_region_params(region,
                                        ds9_shape_templates[shape],
-                                       precision=precision)
+                                       precision=precision,
+                                       frame=sky_frame)
 
     region_type = ds9_shape_templates[shape][0]
     region_str = f'{region_type}({region_params})'
